@@ -301,8 +301,8 @@ func (r *Runner) monC05(s *Step, rep *Reply) {
 		}
 		if cr.Mems != "" && !sameSetStr(cr.Mems, sh.Mems) {
 			diffs = append(diffs, fmt.Sprintf("mems cache=%q runtime=%q", cr.Mems, sh.Mems))
-			if r.Restarts > 0 && r.memOptOut(c) {
-				unmanaged++
+			if r.Restarts > 0 && (r.memOptOut(c) || (r.Inst.Policy == PolBalloons && r.cpuOptOut(c))) {
+				unmanaged++ // balloons does not manage preserved containers at all
 			}
 		}
 		if cr.Cpus == "" && sh.Cpus != "" || cr.Mems == "" && sh.Mems != "" {
